@@ -759,110 +759,127 @@ class P(Prop):
             x = bitsf(bits)
             return int(x) if as_int else x
         try:
-            for op in ops:
-                k = op[0]
-                if k == "new":
-                    f = op[1]
-                    pre.append([])
-                    store.append(self.mk(f, op[2], op[3] if len(op) > 3 else 0))
-                    outs.append(self.snap_abs(store[-1]))
-                elif k == "read":
-                    x = bitsf(op[1])
-                    if op[2] == "i":
-                        x = int(x)
-                    elif op[2] == "np":
-                        import numpy
-                        x = numpy.float64(x)
-                    elif op[2] == "ni":
-                        import numpy
-                        x = numpy.int64(int(x))
-                    pre.append([])
-                    store.append(T.readUnixTime(x))
-                    outs.append(self.snap_abs(store[-1]))
-                elif k == "add":
-                    o = store[op[1]]
-                    pre.append([self.snap(o)])
-                    store.append({"sec": o.addSec, "min": o.addMin, "hour": o.addHour, "day": o.addDay}[op[2]](arg(op[3], op[4])))
-                    outs.append(self.snap_abs(store[-1]))
-                elif k == "conv":
-                    o = store[op[1]]
-                    pre.append([self.snap(o)])
-                    store.append(o.convertToZone(op[2]))
-                    outs.append(self.snap_abs(store[-1]))
-                elif k == "copy":
-                    o = store[op[1]]
-                    pre.append([self.snap(o)])
-                    store.append(o.copy())
-                    outs.append(self.snap_abs(store[-1]))
-                elif k == "rt":
-                    o = store[op[1]]
-                    pre.append([self.snap(o)])
-                    a = o.toAbsTime()
-                    store.append(T.readUnixTime(a))
-                    outs.append(dict(self.snap_abs(store[-1]), a=fbits(a)))
-                elif k == "set":
-                    o = store[op[1]]
-                    pre.append([self.snap(o)])
-                    assign(o, ATTRS[op[2]], op[3])
-                    outs.append("u")
-                elif k == "abs":
-                    o = store[op[1]]
-                    pre.append([self.snap(o)])
-                    outs.append({"x": fbits(o.toAbsTime())})
-                elif k == "cmp":
-                    a, b = store[op[1]], store[op[2]]
-                    pre.append([self.snap(a), self.snap(b)])
-                    outs.append({"f": [int(a < b), int(a > b), int(a == b), int(a <= b), int(a >= b), int(a != b)],
-                                 "x": [fbits(a.toAbsTime()), fbits(b.toAbsTime())]})
-                elif k == "sub":
-                    a, b = store[op[1]], store[op[2]]
-                    pre.append([self.snap(a), self.snap(b)])
-                    outs.append({"x": fbits(a - b)})
-                elif k == "pz":
-                    o = store[op[1]]
-                    pre.append([self.snap(o)])
-                    outs.append({"s": o.printZone()})
-                elif k == "tz":
-                    o = store[op[1]]
-                    pre.append([self.snap(o)])
-                    before = T.getPrintFormat()
-                    r = o.timeWithZone()
-                    outs.append({"s": r + ("" if T.getPrintFormat() == before else " [print format left as %r]" % T.getPrintFormat())})
-                    T.setPrintFormat(before)
-                elif k == "dow":
-                    o = store[op[1]]
-                    pre.append([self.snap(o)])
-                    outs.append({"s": o.getDayOfWeek()})
-                elif k == "trk":
-                    pre.append([])
-                    track = self.Track([self.Obs(self.ENU(float(n), 0.0, 0.0), store[i]) for n, i in enumerate(op[1])])
-                    outs.append("u")
-                elif k == "tget":
-                    pre.append([self.snap(o.timestamp) for o in track])
-                    outs.append({"i": track.getTimeZone()})
-                elif k == "tset":
-                    pre.append([self.snap(o.timestamp) for o in track])
-                    for o in track:
-                        undo.append((o.timestamp, "zone", o.timestamp.zone))
-                    track.setTimeZone(op[1])
-                    outs.append("u")
-                elif k in ("tconv", "tadd"):
-                    pre.append([self.snap(o.timestamp) for o in track])
-                    if k == "tconv":
-                        track.convertToTimeZone(op[1])
+            stopped = None
+            for n_op, op in enumerate(ops):
+                try:
+                    k = op[0]
+                    if k == "new":
+                        f = op[1]
+                        pre.append([])
+                        store.append(self.mk(f, op[2], op[3] if len(op) > 3 else 0))
+                        outs.append(self.snap_abs(store[-1]))
+                    elif k == "read":
+                        x = bitsf(op[1])
+                        if op[2] == "i":
+                            x = int(x)
+                        elif op[2] == "np":
+                            import numpy
+                            x = numpy.float64(x)
+                        elif op[2] == "ni":
+                            import numpy
+                            x = numpy.int64(int(x))
+                        pre.append([])
+                        store.append(T.readUnixTime(x))
+                        outs.append(self.snap_abs(store[-1]))
+                    elif k == "add":
+                        o = store[op[1]]
+                        pre.append([self.snap(o)])
+                        store.append({"sec": o.addSec, "min": o.addMin, "hour": o.addHour, "day": o.addDay}[op[2]](arg(op[3], op[4])))
+                        outs.append(self.snap_abs(store[-1]))
+                    elif k == "conv":
+                        o = store[op[1]]
+                        pre.append([self.snap(o)])
+                        store.append(o.convertToZone(op[2]))
+                        outs.append(self.snap_abs(store[-1]))
+                    elif k == "copy":
+                        o = store[op[1]]
+                        pre.append([self.snap(o)])
+                        store.append(o.copy())
+                        outs.append(self.snap_abs(store[-1]))
+                    elif k == "rt":
+                        o = store[op[1]]
+                        pre.append([self.snap(o)])
+                        a = o.toAbsTime()
+                        store.append(T.readUnixTime(a))
+                        outs.append(dict(self.snap_abs(store[-1]), a=fbits(a)))
+                    elif k == "set":
+                        o = store[op[1]]
+                        pre.append([self.snap(o)])
+                        assign(o, ATTRS[op[2]], op[3])
+                        outs.append("u")
+                    elif k == "abs":
+                        o = store[op[1]]
+                        pre.append([self.snap(o)])
+                        outs.append({"x": fbits(o.toAbsTime())})
+                    elif k == "cmp":
+                        a, b = store[op[1]], store[op[2]]
+                        pre.append([self.snap(a), self.snap(b)])
+                        outs.append({"f": [int(a < b), int(a > b), int(a == b), int(a <= b), int(a >= b), int(a != b)],
+                                     "x": [fbits(a.toAbsTime()), fbits(b.toAbsTime())]})
+                    elif k == "sub":
+                        a, b = store[op[1]], store[op[2]]
+                        pre.append([self.snap(a), self.snap(b)])
+                        outs.append({"x": fbits(a - b)})
+                    elif k == "pz":
+                        o = store[op[1]]
+                        pre.append([self.snap(o)])
+                        outs.append({"s": o.printZone()})
+                    elif k == "tz":
+                        o = store[op[1]]
+                        pre.append([self.snap(o)])
+                        before = T.getPrintFormat()
+                        r = o.timeWithZone()
+                        outs.append({"s": r + ("" if T.getPrintFormat() == before else " [print format left as %r]" % T.getPrintFormat())})
+                        T.setPrintFormat(before)
+                    elif k == "dow":
+                        o = store[op[1]]
+                        pre.append([self.snap(o)])
+                        outs.append({"s": o.getDayOfWeek()})
+                    elif k == "trk":
+                        pre.append([])
+                        track = self.Track([self.Obs(self.ENU(float(n), 0.0, 0.0), store[i]) for n, i in enumerate(op[1])])
+                        outs.append("u")
+                    elif k == "tget":
+                        pre.append([self.snap(o.timestamp) for o in track])
+                        outs.append({"i": track.getTimeZone()})
+                    elif k == "tset":
+                        pre.append([self.snap(o.timestamp) for o in track])
+                        for o in track:
+                            undo.append((o.timestamp, "zone", o.timestamp.zone))
+                        track.setTimeZone(op[1])
+                        outs.append("u")
+                    elif k in ("tconv", "tadd"):
+                        pre.append([self.snap(o.timestamp) for o in track])
+                        if k == "tconv":
+                            track.convertToTimeZone(op[1])
+                        else:
+                            track.addSeconds(arg(op[1], op[2]))
+                        new = [o.timestamp for o in track]
+                        store += new
+                        outs.append({"l": [self.snap_abs(t) for t in new]})
                     else:
-                        track.addSeconds(arg(op[1], op[2]))
-                    new = [o.timestamp for o in track]
-                    store += new
-                    outs.append({"l": [self.snap_abs(t) for t in new]})
-                else:
-                    raise ValueError(k)
+                        raise ValueError(k)
+                except BaseException as e:
+                    if isinstance(e, KeyboardInterrupt):
+                        raise
+                    # a statement that raises ends the program there: what it raised is its output (the oracle judges it
+                    # only if the statement is one the property speaks about, on operands inside its domain)
+                    from engine import err_kind
+                    del pre[n_op + 1:], outs[n_op:]
+                    pre += [[]] * (n_op + 1 - len(pre))
+                    outs.append({"err": err_kind(e), "detail": str(e)[:200]})
+                    stopped = n_op
+                    break
+
             alias = [min(j for j in range(len(store)) if store[j] is store[i]) for i in range(len(store))]
             trk = []
             if track is not None:
                 for o in track:
                     trk.append(next((j for j in range(len(store)) if store[j] is o.timestamp), -1))
-            return {"outs": outs, "pre": pre, "store": [self.snap(o) for o in store], "alias": alias, "track": trk}
+            r = {"outs": outs, "pre": pre, "store": [self.snap(o) for o in store], "alias": alias, "track": trk}
+            if stopped is not None:
+                r["stopped"] = stopped
+            return r
         finally:
             for o, attr, old in reversed(undo):
                 setattr(o, attr, old)
@@ -901,7 +918,14 @@ class P(Prop):
             r = {"sec": a.addSec, "min": a.addMin, "hour": a.addHour, "day": a.addDay}[case["unit"]](case["nb"])
             return {"res": self.fields(r), "abs": fbits(r.toAbsTime())}
         if k == "rdf":
-            return {"rows": [self.fa(self.T.readUnixTime(bitsf(x))) for x in case["x"]]}
+            rows = []
+            for x in case["x"]:
+                try:
+                    rows.append(self.fa(self.T.readUnixTime(bitsf(x))))
+                except Exception as e:   # row by row: a negative argument (outside the property) must not hide the other rows
+                    from engine import err_kind
+                    rows.append({"err": err_kind(e)})
+            return {"rows": rows}
         if k == "cmpf":
             a, b = self.T.readUnixTime(bitsf(case["x"])), self.T.readUnixTime(bitsf(case["y"]))
             return {"a": self.fa(a), "b": self.fa(b),
@@ -920,6 +944,8 @@ class P(Prop):
                     res.append(int(r) if isinstance(r, bool) else repr(r))
                 except AttributeError:
                     res.append("attr")
+                except Exception as e:
+                    res.append("exc:" + type(e).__name__)
             return {"ops": res}
         if k == "ctor":
             T = self.T
@@ -1166,6 +1192,35 @@ class P(Prop):
             return "%s gives %s, expected %s" % (what, got, oracle_fields(int(want * 1000)))
         return self.check_abs(got, res["abs"], "the result of %s," % what)
 
+    def stmt_in_domain(self, op, pre):
+        """is this statement of a program a conversion, comparison or offset the property speaks about, applied to operands
+        inside its domain (well formed, not before 1970) and - offsets, readUnixTime - asked for an instant not before 1970?"""
+        k = op[0]
+        wf = [in_domain(q[:7]) for q in pre]
+        at = lambda q: Fraction(oracle_ms(q[:7]), 1000)
+        try:
+            if k == "new":
+                return in_domain(op[1])
+            if k == "read":
+                x = bitsf(op[1])
+                return math.isfinite(x) and x >= 0
+            if k in ("rt", "abs"):
+                return wf[0]
+            if k in ("cmp", "sub"):
+                return all(wf)
+            if k == "add":
+                return wf[0] and math.isfinite(bitsf(op[3])) and at(pre[0]) + Fraction(bitsf(op[3])) * self.MULT[op[2]] >= 0
+            if k == "tadd":
+                return bool(pre) and all(wf) and math.isfinite(bitsf(op[1])) and all(at(q) + Fraction(bitsf(op[1])) >= 0 for q in pre)
+            if k in ("conv", "tconv"):
+                # as for the results (see spec_prog): what comes back is a calendar stamp read from a number of seconds
+                z = op[2] if k == "conv" else op[1]
+                return bool(pre) and all(wf) and all(at(q) + 3600 * (z - q[7]) >= 0 for q in pre)
+        except (IndexError, ValueError, OverflowError):
+            return False
+        # copy, printZone, timeWithZone, getDayOfWeek, attribute assignments and the Track plumbing of the harness: nothing the property says can be failed by raising there
+        return False
+
     def spec_prog(self, case, out):
         """Every statement of a program is judged on its own, with the state its operands had when it was executed:
         what the statement says about conversions, comparisons and offsets does not depend on what was done before
@@ -1183,6 +1238,12 @@ class P(Prop):
             k = op[0]
             wf = [in_domain(q[:7]) for q in pre]
             m = None
+            if isinstance(o, dict) and "err" in o:
+                # the statement raised (the program stopped there): a failure of the property only if the statement is one the
+                # property speaks about and its operands - and the instant it is asked for - are inside the domain
+                if self.stmt_in_domain(op, pre):
+                    return "%s raised %s (%s)" % (op, o["err"], o.get("detail", "")) + said(i)
+                continue
             if k == "new":
                 if in_domain(op[1]):
                     if o["o"][:7] != op[1]:
@@ -1256,6 +1317,8 @@ class P(Prop):
         lay = prog_layout(ops)
         created, written, track = {}, {}, []
         for (a, c), op, o in zip(lay, ops, out["outs"]):
+            if isinstance(o, dict) and "err" in o:
+                break
             if op[0] in OBJ_OPS:
                 created[a] = (o["o"], op)
             elif op[0] in ("tconv", "tadd"):
@@ -1277,16 +1340,38 @@ class P(Prop):
                         op, was[:7], was[7], ATTRS[x], now[:7], now[7], json_short(ops))
         return None
 
-    def spec(self, case, out):
-        if "err" in out:
-            return "raised %s" % out["err"]
+    def judged(self, case):
+        """does the case ask for something the property speaks about, on inputs inside its domain? (decided on the INPUT alone,
+        before looking at what the implementation did - raising included)"""
         k = case["kind"]
-        if k == "prog":
-            return self.spec_prog(case, out)
         # operands outside the domain of the statement (malformed, or before 1970) are not judged: the generators never
         # produce them, a hand-written replay or corpus file may
         if k in ("day", "cmp", "add", "addf", "ctor") and not all(in_domain(case[x]) for x in ("f", "a", "b") if x in case):
+            return False
+        if k == "addf":   # an offset that leads before 1970: outside the property (correspondence only)
+            return Fraction(oracle_ms(case["a"]), 1000) + Fraction(self.amount(case)) * self.MULT[case["unit"]] >= 0
+        if k == "add":
+            return case["nb"] >= 0
+        if k == "eqx":    # an operand that is not a timestamp: the statement says nothing (correspondence only)
+            return "b" in case and in_domain(case["a"]) and in_domain(case["b"])
+        if k == "cmpf":
+            return bitsf(case["x"]) >= 0 and bitsf(case["y"]) >= 0
+        if k == "rdf":
+            return any(bitsf(x) >= 0 for x in case["x"])
+        if k == "seq":
+            return any(in_domain(f) for f in case["fs"])
+        if k == "secs":
+            return case["start"] >= 0
+        return True
+
+    def spec(self, case, out):
+        k = case["kind"]
+        if not self.judged(case):
             return None
+        if "err" in out:
+            return "raised %s" % out["err"]
+        if k == "prog":
+            return self.spec_prog(case, out)
         if k == "day":
             f = case["f"]
             want = oracle_ms(f)
@@ -1348,6 +1433,8 @@ class P(Prop):
                 x = bitsf(xb)
                 if x < 0:
                     continue   # before 1970: outside the property (correspondence only)
+                if "err" in row:
+                    return "readUnixTime(%r) raised %s" % (x, row["err"])
                 m = self.check_read(x, row)
                 if m:
                     return m
@@ -1393,8 +1480,6 @@ class P(Prop):
                 return "%s gives %s, expected %s" % (what, got, oracle_fields(int(want * 1000)))
             return self.check_abs(got, out["res"]["abs"], "the result")
         if k == "eqx":
-            if "b" not in case or not (in_domain(case["a"]) and in_domain(case["b"])):
-                return None   # an operand that is not a timestamp: the statement says nothing (correspondence only)
             a, b = oracle_ms(case["a"]), oracle_ms(case["b"])
             want = self.ops_of(a, b) + [int(a == b), int(a != b)]
             if out["ops"] != want:
